@@ -117,7 +117,7 @@ def cleanup(d):
 
 TLC_JAR = "/opt/veriftools/tla/tla2tools.jar:/opt/veriftools/tla/CommunityModules-deps.jar"
 
-def tlc(module, cfg=None, wd=None, env=None, timeout=900, workers=1, extra=None, xmx="4g", xss="512m", allow_violation=False):
+def tlc(module, cfg=None, wd=None, env=None, timeout=900, workers=1, extra=None, xmx="4g", xss="512m", allow_violation=False, gc="parallel"):
     """Run TLC on spec/<module>.tla (module may contain a sub-path). Returns dict with stdout,
     states generated / distinct, and 'ok'. Parse errors, timeouts => Infra."""
     path = os.path.join(SPEC, module + ".tla")
@@ -129,7 +129,8 @@ def tlc(module, cfg=None, wd=None, env=None, timeout=900, workers=1, extra=None,
     cfgp = cfg if cfg and os.path.isabs(cfg) else os.path.join(moddir, (cfg or os.path.basename(module)) + ("" if (cfg or "").endswith(".cfg") else ".cfg"))
     # TLC resolves EXTENDS relative to the spec's directory plus -DTLA-Library
     libs = os.pathsep.join([SPEC, os.path.join(SPEC, "gen"), os.path.join(SPEC, "trace"), os.path.join(SPEC, "mc")])
-    cmd = ["java", "-XX:+UseParallelGC", "-XX:ParallelGCThreads=2", "-XX:CICompilerCount=2", "-XX:TieredStopAtLevel=4", "-Xmx" + xmx, "-Xss" + xss, "-DTLA-Library=" + libs,
+    gcflags = ["-XX:+UseSerialGC", "-Xmn256m"] if gc == "serial" else ["-XX:+UseParallelGC", "-XX:ParallelGCThreads=2"]
+    cmd = ["java"] + gcflags + ["-XX:CICompilerCount=2", "-XX:TieredStopAtLevel=4", "-Xmx" + xmx, "-Xss" + xss, "-DTLA-Library=" + libs,
            "-Djava.io.tmpdir=" + wd, "-cp", TLC_JAR, "tlc2.TLC", "-workers", str(workers),
            "-metadir", meta, "-config", cfgp] + (extra or []) + [path]
     e = dict(os.environ)
